@@ -271,7 +271,7 @@ def _expect(fp, stype, meta, mbi, roi, ri, label):
     split={"src": [0, 1, 2, 3, 4], "ri": [0, 1, 2]},
     bounds="full matrix: storage type {filesystem, memory, null} x metadata_path {absent, given} x memory_cache_mb {absent, 0.5, 1, 3} x "
            "readonly {absent, false, true} x runner {absent, local, null} x source {FunctionCluster(config dict), Environment(config dict), "
-           "env.json -> repo.json -> cluster json by relative paths, YAML repository file with a jinja parameter, JSON files that are templates relying on jinja defaults and loaded without parameters}; effect observed "
+           "env.json -> repo.json -> cluster json by relative paths, YAML repository file with a jinja parameter, JSON files that are templates relying on jinja defaults and loaded without parameters}; the directory name substituted contains '&', '<', '>' and blanks; effect observed "
            "behaviourally (files on tmpfs, disk reads on repeated calls of a small and a 700 kB result, forget) and compared with the "
            "same options given as constructor arguments and with an independent expectation",
     variables="choice: stype, meta, mbi, roi (src, ri partitioned)",
@@ -299,7 +299,9 @@ def options(src: int, stype: int, meta: bool, mbi: int, roi: int, ri: int):
             cover("null-runner")
         sb = Sandbox()
         try:
-            root = sb.root
+            # the directory substituted into the templates has characters an HTML-minded template engine would rewrite
+            root = os.path.join(sb.root, "R&D <x> y")
+            os.makedirs(root)
             env_cfg = _env_from_source(src, root, lambda templ: _cluster_cfg(root, "c1", stype, meta, mbi, roi, ri, templ))
             fp_cfg = fingerprint(env_cfg, "c1", root, "a")
             env_arg = _env_by_args(root, stype, meta, mbi, roi, ri)
